@@ -155,11 +155,11 @@ const prelude = `
 (declare-datatypes ((Slice 0)) (((mkslice (sbase Int) (soff Int) (sllen Int) (scap Int)))))
 (define-fun zarr () (Array Int Int) ((as const (Array Int Int)) 0))
 (define-fun strempty () Str (mkstr zarr 0))
-(define-fun strcanon ((s Str)) Bool (and (>= (slen s) 0) (<= (slen s) 9223372036854775807) (forall ((i Int)) (! (=> (or (< i 0) (>= i (slen s))) (= (select (sdata s) i) 0)) :pattern ((select (sdata s) i))))))
+(define-fun strcanon ((s Str)) Bool (and (>= (slen s) 0) (<= (slen s) 281474976710656) (forall ((i Int)) (! (=> (or (< i 0) (>= i (slen s))) (= (select (sdata s) i) 0)) :pattern ((select (sdata s) i))))))
 (define-fun strbytes ((s Str)) Bool (forall ((i Int)) (! (and (<= 0 (select (sdata s) i)) (<= (select (sdata s) i) 255)) :pattern ((select (sdata s) i)))))
 (define-fun strok ((s Str)) Bool (and (strcanon s) (strbytes s)))
 (define-fun slicenil () Slice (mkslice 0 0 0 0))
-(define-fun sliceok ((s Slice)) Bool (and (<= 0 (soff s)) (<= 0 (sllen s)) (<= (sllen s) (scap s)) (<= (scap s) 9223372036854775807) (=> (= (sbase s) 0) (= (scap s) 0))))
+(define-fun sliceok ((s Slice)) Bool (and (<= 0 (soff s)) (<= 0 (sllen s)) (<= (sllen s) (scap s)) (<= (scap s) 281474976710656) (=> (= (sbase s) 0) (= (scap s) 0))))
 (define-fun tdiv ((a Int) (b Int)) Int (ite (>= a 0) (ite (> b 0) (div a b) (- (div a (- b)))) (ite (> b 0) (- (div (- a) b)) (div (- a) (- b)))))
 (define-fun trem ((a Int) (b Int)) Int (- a (* b (tdiv a b))))
 (define-fun wrapU8 ((x Int)) Int (mod x 256))
